@@ -160,6 +160,7 @@ class Interp:
         self.call_stack: list[FuncInfo] = []
         self.param_dims: dict[str, str] = {}
         self.objects: dict[int, SVar] = {}
+        self._decided: dict = {}
 
     # ------------------------------------------------------------------
     # path enumeration
@@ -173,6 +174,7 @@ class Interp:
             self._choice_idx = 0
             self.events = []
             self.conditions = []
+            self._decided = {}
             self.depth = 0
             self.call_stack = []
             try:
@@ -193,7 +195,19 @@ class Interp:
         return outcomes
 
     def decide(self, cond, where: str) -> bool:
-        """Fork on a symbolic condition."""
+        """Fork on a symbolic condition (the same condition is decided once per path)."""
+        key = None
+        t = getattr(cond, 'term', None)
+        if t is not None:
+            key = T.show(t)
+            if key in self._decided:
+                return self._decided[key]
+        c = self._decide_new(cond, where)
+        if key is not None:
+            self._decided[key] = c
+        return c
+
+    def _decide_new(self, cond, where: str) -> bool:
         if self._choice_idx < len(self._choices):
             c = self._choices[self._choice_idx]
         else:
@@ -475,6 +489,9 @@ class Interp:
     # ------------------------------------------------------------------
     def truth(self, v, node) -> bool:
         if isinstance(v, Opaque):
+            ct = v.cond_term
+            if isinstance(ct, tuple) and len(ct) == 2 and ct[0] == 'not':
+                return not self.truth(ct[1], node)
             return self.decide(v, self.where(node))
         if isinstance(v, SVar):
             return self.decide(v, self.where(node))
@@ -869,19 +886,31 @@ class Interp:
         return self.eval(e.body if c else e.orelse, env, mi)
 
     def ex_Tuple(self, e, env, mi):
-        return tuple(self._elts(e.elts, env, mi))
+        try:
+            return tuple(self._elts(e.elts, env, mi))
+        except _OpaqueElts:
+            return Opaque('tuple with ⊤ elements')
 
     def ex_List(self, e, env, mi):
-        return list(self._elts(e.elts, env, mi))
+        try:
+            return list(self._elts(e.elts, env, mi))
+        except _OpaqueElts:
+            return Opaque('list with ⊤ elements')
 
     def ex_Set(self, e, env, mi):
-        return set(self._elts(e.elts, env, mi))
+        try:
+            return set(self._elts(e.elts, env, mi))
+        except _OpaqueElts:
+            return Opaque('set with ⊤ elements')
 
     def _elts(self, elts, env, mi):
         out = []
         for x in elts:
             if isinstance(x, ast.Starred):
-                out.extend(self.iterate(self.eval(x.value, env, mi), x))
+                v = self.eval(x.value, env, mi)
+                if isinstance(v, Opaque):
+                    raise _OpaqueElts()
+                out.extend(self.iterate(v, x))
             else:
                 out.append(self.eval(x, env, mi))
         return out
@@ -1005,6 +1034,10 @@ class Interp:
         self._comp(e.generators, env, mi,
                    lambda en: out.__setitem__(self.eval(e.key, en, mi), self.eval(e.value, en, mi)))
         return out
+
+
+class _OpaqueElts(Exception):
+    pass
 
 
 class _PyBound:
